@@ -477,6 +477,9 @@ class Flow:
         if name is None:
             return {("call", bb, "<indirect>")}
         ta = transparent_args(name, self.extra)
+        if ta is None and t["f"].get("def") in ("std::clone::Clone::clone", "std::borrow::ToOwned::to_owned",
+                                                 "std::ops::Deref::deref", "std::ops::DerefMut::deref_mut"):
+            ta = [0]  # user impls of Clone/Deref are value-preserving too
         if ta is not None:
             out = set()
             rest = strip_wrappers(projs)
